@@ -57,6 +57,8 @@ def gen_parts(rng, boundary):
             hs.append(("Content-Disposition", "attachment; filename=\"%s\"" % text.token(rng)))
         for _ in range(rng.below(3)):
             hs.append(("X-" + text.token(rng), text.printable(rng, 1, 20, weights=(8, 1, 1)).strip() or "v"))
+        if rng.chance(1, 10):
+            hs.append((rng.choice(["Content-Description", "X-Empty"]), ""))   # a header may have an empty value
         kind, body = gen_body(rng, boundary)
         parts.append({"headers": hs[:4], "body": body, "kind": kind})
     return parts
